@@ -49,10 +49,12 @@ _NOEX = set(filter(None, os.environ.get("VERIF_NO_EXCLUDE", "").split(",")))
 EXCLUDE_DIAG = ((is_open("C13-mask-hole-on-diagonal") or is_open("C12-axis-outside-lcfs"))
                 and not ({"C13-mask-hole-on-diagonal", "C12-axis-outside-lcfs", "all"} & _NOEX))
 
-# returned-vector aliasing (raysect Constant2D returns its own Vector3D) and numeric profiles (docstring `v_normal = 0.0`):
-# the "mutate" step / the "float" profile kind are generated only once these findings are closed
-EXCLUDE_ALIAS = is_open("C12-constant-vector-aliased") and not ({"C12-constant-vector-aliased", "all"} & _NOEX)
-EXCLUDE_FLOAT = is_open("C12-scalar-profile-rejected") and not ({"C12-scalar-profile-rejected", "all"} & _NOEX)
+# Outside the property as stated, hence never generated (observations, DESIGN section 5; VERIF_NO_EXCLUDE=... shows them):
+#  - modifying a vector returned by eq.toroidal_vector / the outside value of map_vector2d in place (raysect's Constant2D hands
+#    out its own Vector3D): the property says nothing about callers writing into returned objects;
+#  - numeric profiles (`v_normal = 0.0` in two docstrings): the quantifier is "functions or 2xN arrays".
+EXCLUDE_ALIAS = not ({"C12-constant-vector-aliased", "all"} & _NOEX)
+EXCLUDE_FLOAT = not ({"C12-scalar-profile-rejected", "all"} & _NOEX)
 
 SAFETY = 2.0          # factor on the a-priori interpolation bounds (guide: <= 3)
 LEBESGUE = 1.25       # sup-norm of the 1-D finite-difference Hermite operator (interior 1.25 at t=1/2, edge cells <= 1.148)
@@ -85,7 +87,22 @@ RULE = ("Case = equilibrium + point set + profiles. Equilibria: bundled example 
         "inside value different from the outside value, and (scalar, vector) at least one evaluated toroidal angle differs from 0, "
         "(basis: instead of the value condition) at least 10 non-degenerate points; distinct by case hash. Negative-sign equilibria, an active clamp, degenerate "
         "basis points, symmetric equilibria of either sign, one-zero points (B_r = 0 and B_z = 0 in basis, visible v_p/v_n in vector) "
-        "and every equilibrium / profile class are required classes.")
+        "and every equilibrium / profile class are required classes. "
+        "Widening by kind - (a) forms: synthetic constructor arguments as C arrays, nested lists, tuples + Fortran-ordered arrays, strided "
+        "views of NaN-filled buffers + Python ints for integral scalars, or all keywords (same values, all oracles unchanged); array "
+        "profiles as list / tuple / ndarray / Fortran / strided / float32 / int (reference = the canonical float64 values); coordinates "
+        "as Python floats, numpy scalars and Python ints; outside value positional / keyword / int / omitted; api: float32 psi (or "
+        "float32 everything), int F/q profiles, nested tuples against a twin built from float64 arrays of the same values, bit for bit. "
+        "(b) values: grids down to 5 knots and LCFS polygons of 3-32 vertices as minority classes, 2-knot F profile, 0-2 x-points, "
+        "psi_0 in {0, 1, -3} and D = +-1 exactly, profiles that are exactly 0.0 / constant (functions returning float or int), array "
+        "profiles with exact zeros on part of the knots and equal neighbours, polynomial coefficients 0 and 1, inside points with "
+        "psi_n == 0.0 exactly (clamp bound), 3-D points given as (x, y) = (-r, +0.0), (-r, -0.0), (0, +-r), (-0.0, r), (r, -0.0), "
+        "api: EFITLCFSMask on psi_n in {1.0, 1+ulp, 1-ulp, 0}, helper classes on fields with 0.0 / -0.0 / 1e+-100 components. "
+        "(c) re-use: one equilibrium serves 1-3 mappings per case and (cache) several cases; at the end psi_normalised and the first "
+        "mapped function are evaluated again and map2d is rebuilt - all bit identical; vectors handed out earlier are compared with "
+        "their snapshots before anything is re-evaluated. (d) caller-owned ndarrays (constructor arguments, profile arrays, the outside "
+        "Vector3D) must be bit-identical and writeable after the call and are then overwritten, so that any later use shows up. "
+        "(e) api exercises every attribute and class of efit.pyx / example.py / the Generomak loader (list in REQUIRED_LABELS).")
 ASSUMPTIONS = [
     "inside the LCFS = inside the lcfs_polygon given to the constructor (crossing number, my own) AND psi_normalised <= 1 "
     "(the EFITLCFSMask definition quoted in the property's mechanism); points closer than 1e-9*size to a polygon edge accept either",
@@ -98,6 +115,11 @@ ASSUMPTIONS = [
     "open finding C13-mask-hole-on-diagonal: points within 1e-9*size of an internal edge of raysect's triangulate2d(polygon) "
     "accept either value (labelled excluded_known)",
     "math.atan2 / sqrt / sin / cos of CPython are the libm functions the extension uses",
+    "api: getters return what the constructor was given (docstring :ivar: list); psi_normalised = max(0, (psi - psi_axis)/(psi_lcfs - "
+    "psi_axis)) with the object's own psi; F and q reproduce their samples on the knots; inside_limiter and psin_to_r are only "
+    "exercised (value in {0, 1} / finite) - the statement says nothing about them",
+    "open findings C12-constant-vector-aliased (the in-place modification of a returned vector) and C12-scalar-profile-rejected "
+    "(numeric profiles) are excluded from generation while open; their probes are replayed on every run",
 ]
 TOLERANCES = {
     "composition": "|map2d(p)(r,z) - p(eq.psi_normalised(r,z))| <= 1e-12*scale (scale = max|p| on [0,1] and |outside|): same "
@@ -128,6 +150,9 @@ TOLERANCES = {
                         "in-plane component is 0.0 are not degenerate (the rule looks at hypot(B_r, B_z))",
     "vector components": "1e-10*max(|v_t|,|v_p|,|v_n|) on each component of map_vector2d in my own basis (t = e_y, "
                          "p = B_pol/|B_pol|, n = p x t)",
+    "psi vs psi_n": "|psi_n - max(0,(psi-psi_axis)/dpsi)| <= 1e-10*(max|psi grid| + |psi_axis|)/|dpsi| + 1e-12: the interpolant is linear in the "
+                    "data, so normalising before or after interpolation differs by the rounding of the cubic coefficients (~50 ulp of max|psi|)",
+    "forms / re-use / twins": "== (bit identical): the same values must take the same arithmetic path",
     "rotation": "|map_vector3d(x,y,z) - Rz(atan2(y,x)) map_vector2d(sqrt(x^2+y^2), z)| <= 1e-10*|v| (degrees round trip ~1e-15)",
 }
 
